@@ -1,5 +1,7 @@
 HOOK_COMMITS = ["d8a0f57"]
-FIX_COMMITS = ["10a3687", "edbed29", "6730abc", "202cc98", "aa67b39"]
+FIX_COMMITS = ["10a3687", "edbed29", "6730abc", "202cc98", "aa67b39", "628eb0d", "fc50b63"]
+OPS_NOTE = ("Trusted: Lean kernel (axioms propext, Classical.choice, Quot.sound only); the acceptors are hand-written specifications of the operators' possible results, and the real operators are checked to "
+            "stay inside them (K-ops: sequences of crossover+mutation on one PathContext, all parameter corners, all 10 node kinds incl. maps in maps/variants/optionals); rand/rand_distr are not modelled.")
 CODEC_NOTE = ("Trusted: Lean kernel (axioms propext, Classical.choice, Quot.sound only); the hand-written spec/value/JSON model, tied to value.rs and value_util.rs by the "
               "K-codec correspondence on generated specs of all 10 node kinds with hostile keys, conforming values, both map encodings, single-defect corruptions and arbitrary JSON; "
               "serde_json's text parser/printer is outside the model.")
@@ -11,6 +13,20 @@ CTL_NOTE = ("Trusted: Lean kernel (axioms propext, Classical.choice, Quot.sound 
             "by the K-ctl correspondence (real async_launch::launch driven by scripted completion orders, outcomes, bursts, Terminate positions, "
             "abort-honouring/ignoring evaluations); tokio/futures scheduling itself is not modelled - an event is 'the select! loop takes this result'.")
 TEXT = {
+    "C12": {
+        "text": "Theorems C12_prov / C12_single / C12_same over the crossover acceptor, for every well-formed spec, every ordered list of conforming parents and every probability class: each accepted offspring satisfies the "
+                "provenance relation prov (defined without reference to probabilities: every leaf, option, presence and map key comes from a parent at the same position, sub-structures are combined only among parents sharing it); "
+                "one parent or identical parents give an identical offspring. The real crossover is checked to produce only accepted offspring, and prov is evaluated on every real offspring as well.",
+        "design_ref": "7 (C12), 3.3, 4 (L4)", "note": OPS_NOTE,
+        "technique": "Lean 4 mutual structural induction over spec/value families (acceptor refinement) + differential correspondence of the operators",
+    },
+    "C13": {
+        "text": "Theorems C13_id / C13_step / C13_init_* over the mutation acceptor, for every well-formed spec, conforming value and probability class: probability 0 is the identity; at every map position the size changes by at most one, "
+                "a removed key was present, an added key is not a key of the input map and no key disappears (nothing overwritten), at probability 1 every map is resized; a switched variant / materialised optional is an accepted mutation of "
+                "the declared initial value. The real mutation is checked to produce only accepted outputs in operation sequences on a shared PathContext; resizeLocal is evaluated on every real output.",
+        "design_ref": "7 (C13), 9 (D1)", "note": OPS_NOTE,
+        "technique": "Lean 4 mutual structural induction over spec/value families (acceptor refinement) + differential correspondence of the operators",
+    },
     "C11": {
         "text": "Theorems over the codec model for every spec/value/document: C11_reject (whatever fromJson accepts conforms - so wrong type, unknown/missing key, out-of-bounds number, wrong array length, map size "
                 "outside bounds, unknown option are rejected; fromJson is total), C11_rt_json (value -> JSON -> value -> same JSON), C11_rt_value / C11_same (exact value for unambiguous specs; the spec's own initial value read back "
